@@ -19,7 +19,9 @@ def pool(M, ctx):
     mild = dict(jitter=0.05, strength=0.2, min_angle=20.0)
     out = [("icosa_r2", M.distort(M.refine(M.icosahedron(), 2), rng, **mild)),
            ("cube_r3", M.distort(M.refine(M.cube(face_domains=True), 3), rng, **mild)),
-           ("two_solids_r3", M.refine(M.two_solids(), 3))]
+           ("two_solids_r3", M.refine(M.two_solids(), 3)),
+           # closed and outward oriented, but not a manifold: two cubes touching along one edge (that edge has 4 neighbours)
+           ("cubes_edge_touch_r2", M.refine(M.voxel_surface([(0, 0, 0), (1, 1, 0)]), 2))]
     if not ctx.quick:
         out += [("lprism_r3", M.distort(M.refine(M.l_prism(), 3), rng, **mild)),
                 ("torus36x18", M.distort(M.torus(36, 18, R=1.0, r=0.45), rng, **mild)),
